@@ -61,6 +61,10 @@ def zero_ctx_switches(body):
         if si["kind"] != "bool":
             continue
         cmp_ = q.comparison(si["cond"])
+        true_only = False
+        if not cmp_:
+            cmp_ = q.comparison_true_only(si["cond"])    # `let is_reg = topic == .. && ctx == ZERO; if is_reg {..}`
+            true_only = True
         if not cmp_:
             continue
         rel, l, r = cmp_
@@ -70,8 +74,10 @@ def zero_ctx_switches(body):
             continue
         if not any(q.has_field(s, "context_id") for s in (l, r)):
             continue
-        z = q.edge_triples(body, bb, lambda m: m is (rel == "eq"))
-        nz = q.edge_triples(body, bb, lambda m: m is (rel != "eq"))
+        if true_only and rel != "eq":
+            continue
+        z = q.edge_triples(body, bb, lambda m: m is ((rel == "eq") if not true_only else True))
+        nz = [] if true_only else q.edge_triples(body, bb, lambda m: m is (rel != "eq"))
         out.append((bb, z, nz))
     return out
 
